@@ -410,6 +410,8 @@ fn scenario_pairs() -> Vec<(&'static str, &'static str, &'static str)> {
         ("reuse-offset-of-rendered-group", r##"<svg><g id="t"><rect wh="4"/></g><reuse href="#t" x="10" y="20" dx="5" dy="7"/></svg>"##, r##"<svg><g id="t"><rect wh="4"/></g><g transform="translate(15, 27)" class="t"><rect wh="4"/></g></svg>"##),
         ("reuse-position-with-unit", r##"<svg><specs><rect id="t" wh="$s"/></specs><reuse href="#t" s="3" x="1cm" y="2cm"/></svg>"##, r##"<svg><rect wh="3" x="1cm" y="2cm" class="t"/></svg>"##),
         ("reuse-position-with-percent", r##"<svg><specs><rect id="t" wh="$s"/></specs><reuse href="#t" s="3" x="10%" y="20"/></svg>"##, r##"<svg><rect wh="3" x="10%" y="20" class="t"/></svg>"##),
+        ("template-own-style-kept/shape", r##"<svg><specs><rect id="t" style="fill:red" wh="$s"/></specs><reuse href="#t" s="3" style="stroke:blue"/></svg>"##, r##"<svg><rect style="fill:red; stroke:blue" wh="3" class="t"/></svg>"##),
+        ("template-own-style-kept/group", r##"<svg><specs><g id="t" style="opacity:0.5"><rect wh="$s"/></g></specs><reuse href="#t" s="3" style="stroke:blue"/></svg>"##, r##"<svg><g style="opacity:0.5; stroke:blue" class="t"><rect wh="3"/></g></svg>"##),
         ("group-template-local-variables-placed", r##"<svg><specs><g id="dot" r="2" width="5"><circle r="$r" cxy="$c"/><rect wh="$width"/></g></specs><reuse href="#dot" c="0" x="10"/></svg>"##, r##"<svg><g r="2" width="5" transform="translate(10, 0)" class="dot"><circle r="2" cxy="0"/><rect wh="5"/></g></svg>"##),
         ("defaults-apply-to-instance", r##"<svg><defaults><rect rx="2" class="d"/></defaults><specs><rect id="t" wh="$s"/></specs><reuse href="#t" s="3"/></svg>"##, r##"<svg><defaults><rect rx="2" class="d"/></defaults><rect wh="3" class="t"/></svg>"##),
     ]
